@@ -126,7 +126,16 @@ class Driver:
         if not requests:
             return []
         data = "\n".join(sexp.dumps(r) for r in requests) + "\n"
-        p = subprocess.run([DRIVER], input=data, capture_output=True, text=True, timeout=timeout)
+        # another check running at the same time may be relinking the driver (the binary is replaced, not updated in
+        # place): wait for it to reappear instead of failing
+        for attempt in range(120):
+            try:
+                p = subprocess.run([DRIVER], input=data, capture_output=True, text=True, timeout=timeout)
+                break
+            except (FileNotFoundError, PermissionError, OSError) as exc:
+                if attempt == 119:
+                    raise ToolFailure(f"pvdriver cannot be started: {exc}")
+                time.sleep(1.0)
         if p.returncode != 0:
             raise ToolFailure(f"pvdriver exit {p.returncode}: {p.stderr[-2000:]}")
         lines = p.stdout.splitlines()
